@@ -15,9 +15,11 @@ import vp
 
 CONC = {"i1a": {"$i64": "1"}, "i1b": {"$u64": "1"}, "i2": 2, "sa": "a", "sb": "b", "nn": None,
         "m1": {"k": 1, "id": "m1"}, "m2": {"k": {"$u64": "1"}, "id": "m2"}, "m3": {"k": 2, "id": "m3"}, "ms": {"k": "a", "id": "ms"},
-        "mx": {"id": "mx"}, "mn": {"k": None, "id": "mn"}, "ar": [1]}
-SHOWN = {"i1a": "1", "i1b": "1", "i2": "2", "sa": "a", "sb": "b", "nn": "N", "ar": "A"}
-ITEM = "{% if e is map %}{{ e.id }}{% elif e is array %}A{% elif e is none %}N{% else %}{{ e }}{% endif %},"
+        "mx": {"id": "mx"}, "mn": {"k": None, "id": "mn"}, "ar": [1], "ax": [1, "a"], "a13": [1, 3], "a2": [2],
+        "m0": {}, "mxz": {"id": "mx", "zz": 1}}          # m0 = {} and mxz = mx plus a key sorting last: "prefix" maps of mx
+SHOWN = {"i1a": "1", "i1b": "1", "i2": "2", "sa": "a", "sb": "b", "nn": "N", "ar": "A1", "ax": "A1a", "a13": "A13", "a2": "A2", "m0": "M0", "mxz": "mxz"}
+ITEM = ("{% if e is map %}{% if e | length == 0 %}M0{% elif e.zz is defined %}mxz{% else %}{{ e.id }}{% endif %}{% elif e is array %}A{{ e | join }}"
+        "{% elif e is none %}N{% else %}{{ e }}{% endif %},")
 
 
 def shown(ids):
@@ -43,7 +45,9 @@ def run(tier):
         ctx = {"xs": [CONC[i] for i in xs]}
         tests = []
         for name, res, expr in (("sort", v["sort"], "xs | sort"), ("sort(attribute)", v["sortk"], "xs | sort(attribute='k')")):
-            if res["r"] != "unspec":
+            if res["r"] == "ok-nn":
+                tests.append((name, loop(expr), ("NN" if name == "sort" else "NNK", shown(res["out"]))))          # compare after dropping the none items
+            elif res["r"] != "unspec":
                 tests.append((name, loop(expr), shown(res["out"]) if res["r"] == "ok" else None))
         tests.append(("unique", loop("xs | unique"), shown(v["unique"])))
         tests.append(("reverse", loop("xs | reverse") + "|{{ xs | reverse | reverse == xs }}|{{ xs | length }}", shown(v["rev"]) + "|true|%d" % len(xs)))
@@ -74,6 +78,13 @@ def run(tier):
         key = {"filter": name, "xs": xs}
         if x.get("panic") or x.get("abort"):
             C.violation(dict(key, kind="panic"), "panic: %s on %s: %s" % (name, xs, x.get("msg")), {"job": job, "result": x})
+        elif isinstance(exp, tuple):
+            got = x.get("out", "").replace("N,", "") if x.get("ok") else None
+            if got is not None and exp[0] == "NNK":
+                got = got.replace("mn,", "")             # the element whose KEY is none
+            if got != exp[1]:
+                C.violation(dict(key, kind="value"), "%s on %s: engine %s; apart from the none values the contract gives %r" % (
+                    name, xs, repr(x.get("out")) if x.get("ok") else "error: " + (x.get("msg") or x.get("disp", ""))[:100], exp[1]), {"job": job, "expected": exp[1], "got": x})
         elif exp is None:
             if x.get("ok"):
                 C.violation(dict(key, kind="noerr"), "%s on %s must be refused (keys not mutually comparable / attribute missing) but gives %r" % (name, xs, x.get("out")), {"job": job, "got": x})
